@@ -403,6 +403,87 @@ func doSeq(w uint32, ops [][2]uint32, class string) {
 		map[string]interface{}{"word": w, "history": hist})
 }
 
+// ---------------------------------------------------------------- the word through the connHost wrappers
+
+var hostKinds = []string{"client *Session", "*proxyClient", "server *Session"}
+var hostOps = []string{"stateSet", "stateUnset", "chanRunning", "chanStart", "chanStop", "close(false)"}
+
+// hostApply mirrors Model/State.v host_op
+func hostApply(h *c2.VerifC13Host, op int, v uint32) bool {
+	switch op {
+	case 0:
+		h.StateSet(v)
+	case 1:
+		h.StateUnset(v)
+	case 2:
+		return h.ChanRunning()
+	case 3:
+		return h.ChanStart()
+	case 4:
+		return h.ChanStop()
+	default:
+		h.Close()
+	}
+	return false
+}
+
+// doHost runs a history through the connHost methods of one host (ops that the bare host cannot
+// execute are replaced by chanRunning), with the oracle on every step.
+func doHost(kind int, w uint32, ops [][2]uint32, class string) {
+	defer func() {
+		if x := recover(); x != nil {
+			out.Fail(fmt.Sprintf("a connHost method panicked: %v", x), "panic", map[string]interface{}{"host": hostKinds[kind], "word": w, "ops": ops})
+		}
+	}()
+	h := c2.VerifC13NewHost(kind, w)
+	var rets uint64
+	terms := make([]string, len(ops))
+	hist := make([]map[string]interface{}, len(ops))
+	for i, o := range ops {
+		op := int(o[0])
+		if op == 5 && !h.CloseCovered() {
+			op, o[1] = 2, 0
+		}
+		before := h.Word()
+		r := hostApply(h, op, o[1])
+		after := h.Word()
+		rets |= b2u(r) << uint(i)
+		terms[i] = fmt.Sprintf("(%d,%d)", op, o[1])
+		hist[i] = map[string]interface{}{"method": hostOps[op], "arg": o[1], "ret": r, "before": before, "after": after}
+		d := map[string]interface{}{"host": hostKinds[kind], "word": w, "history": hist[:i+1]}
+		switch op {
+		case 0:
+			if after != before|o[1] {
+				out.Fail(fmt.Sprintf("a flag set through %s.stateSet did not take effect", hostKinds[kind]), "host-set", d)
+			}
+		case 1:
+			if after != before&^o[1] {
+				out.Fail(fmt.Sprintf("a flag clear through %s.stateUnset did not take effect (word 0x%x, Unset(0x%x) left 0x%x)", hostKinds[kind], before, o[1], after), "host-unset", d)
+			}
+		case 2:
+			if r != (before&bits[bChannel] != 0) || after != before {
+				out.Fail("chanRunning does not report the Channel flag", "host-running", d)
+			}
+		case 5:
+			closing := before&(bits[bClosing]|bits[bClosed]) != 0
+			if !closing && after&(bits[bChannel]|bits[bChannelValue]|bits[bChannelUpdated]) != 0 {
+				out.Fail(fmt.Sprintf("Session.close left part of the channel request behind (word 0x%x -> 0x%x): a notice that outlives its request is consumed by the next, unrelated channel", before, after), "close-leaves-notice", d)
+			}
+			if !closing && after&(bits[bClosing]|bits[bClosed]) == 0 {
+				// the Session keeps running: the peer starts a channel, the first poll must not find a stale notice
+				x := c2.VerifC13NewHost(kind, after)
+				x.StateSet(bits[bChannel])
+				if x.ChanStop() {
+					d["after_channel_start"] = x.Word()
+					out.Fail(fmt.Sprintf("after Session.close (word 0x%x -> 0x%x) a channel started by the peer is stopped by its first ChannelCanStop: a stale notice was consumed", before, after), "close-leaves-notice", d)
+				}
+			}
+		}
+	}
+	out.Add(fmt.Sprintf("CHost %d %d %s %d %d", kind, w, vh.List(terms), h.Word(), rets), class, len(ops) > 1,
+		map[string]interface{}{"host": hostKinds[kind], "word": w, "history": hist})
+}
+
 // ---------------------------------------------------------------- concurrent search
 
 type lostInfo struct {
@@ -419,12 +500,35 @@ type stressCfg struct {
 	GroupGoer bool     `json:"setlast_goroutine"`
 	Millis    int      `json:"millis"`
 	Init      uint32   `json:"initial_word"`
+	Via       string   `json:"via,omitempty"` // "" = the bare state value; "session" / "proxyclient" = through the connHost methods stateSet / stateUnset
+}
+
+// wordAccess: how the goroutines of the stress run reach the word
+type wordAccess struct {
+	set, unset func(uint32)
+	setlast    func(uint16)
+	load       func() uint32
+}
+
+func newWordAccess(via string, init uint32) wordAccess {
+	switch via {
+	case "session", "proxyclient":
+		kind := 0
+		if via == "proxyclient" {
+			kind = 1
+		}
+		h := c2.VerifC13NewHost(kind, init)
+		return wordAccess{set: h.StateSet, unset: h.StateUnset, setlast: func(uint16) {}, load: h.Word}
+	}
+	p := new(S)
+	*p = S(init)
+	return wordAccess{set: p.Set, unset: p.Unset, setlast: p.SetLast, load: func() uint32 { return word(p) }}
 }
 
 // stress runs the configuration once and returns the number of operations, the number of lost
 // updates and the first one observed.
 func stress(c stressCfg) (ops, lost int64, first *lostInfo) {
-	var s S = S(c.Init)
+	s := newWordAccess(c.Via, c.Init)
 	var mu sync.Mutex
 	var stop int32
 	var wg sync.WaitGroup
@@ -443,15 +547,15 @@ func stress(c stressCfg) (ops, lost int64, first *lostInfo) {
 			var n, l int64
 			<-start
 			for i := 0; atomic.LoadInt32(&stop) == 0; i++ {
-				s.Set(b)
-				if x := word(&s); x&b != b {
+				s.set(b)
+				if x := s.load(); x&b != b {
 					if l == 0 {
 						record(lostInfo{"set", gi, i, b, x})
 					}
 					l++
 				}
-				s.Unset(b)
-				if x := word(&s); x&b != 0 {
+				s.unset(b)
+				if x := s.load(); x&b != 0 {
 					if l == 0 {
 						record(lostInfo{"unset", gi, i, b, x})
 					}
@@ -471,8 +575,8 @@ func stress(c stressCfg) (ops, lost int64, first *lostInfo) {
 			<-start
 			for i := 0; atomic.LoadInt32(&stop) == 0; i++ {
 				g := uint16(i*40503 + 1)
-				s.SetLast(g)
-				if x := word(&s); uint16(x>>16) != g {
+				s.setlast(g)
+				if x := s.load(); uint16(x>>16) != g {
 					if l == 0 {
 						record(lostInfo{"setlast", gi, i, uint32(g), x})
 					}
@@ -516,7 +620,7 @@ func doStress(c stressCfg) {
 		out.Fail(fmt.Sprintf("lost update: %d of %d concurrent state operations did not take effect (%d goroutines, each the only writer of its bits)", lost, ops, n),
 			"lost-update", map[string]interface{}{"stress": c, "goroutines": n, "operations": ops, "lost": lost, "first_lost": first,
 				"gomaxprocs": runtime.GOMAXPROCS(0), "goroutine_programs": programs(c), "model_witness": modelWitness,
-				"how": "each goroutine loops Set(b); check b is set; Unset(b); check b is clear (or SetLast(g); check Last()==g) on ONE shared state word; it is the only writer of b / of the group half"})
+				"via": c.Via, "how": "each goroutine loops Set(b); check b is set; Unset(b); check b is clear (or SetLast(g); check Last()==g) on ONE shared state word; it is the only writer of b / of the group half"})
 	}
 }
 
@@ -756,7 +860,8 @@ func main() {
 		"sequential: EVERY one of the 2^16 flag states (group half boundary/hashed) through every method of the real c2.state: the Go-side oracle on every row (class row), and for the model "+
 			"one CBlock case per 64 consecutive flag states carrying the digest of all their results (packed results of the 21 bool-valued calls, Last, the words left by the 4 mutating protocol calls, "+
 			"by Set/Unset with each of the 16 single-bit arguments and by SetLast); single CRow cases with free group values (boundary grid + random); "+
-			"random multi-bit mutator calls (CMut) and random call sequences (CSeq); concurrent (oracle only): tight set/check/unset loops of 2 and 4 goroutines on disjoint bits and SetLast against Set on one shared word, and SetChannel on one goroutine against a goroutine polling ChannelCanStop; "+
+			"random multi-bit mutator calls (CMut) and random call sequences (CSeq); histories through the connHost methods of a client *Session, a *proxyClient and a server *Session "+
+			"(CHost: stateSet, stateUnset, chanRunning, chanStart, chanStop, Session.close) with the oracle on every step; concurrent (oracle only): tight set/check/unset loops of 2 and 4 goroutines on disjoint bits and SetLast against Set on one shared word, and SetChannel on one goroutine against a goroutine polling ChannelCanStop; "+
 			"distinct = distinct Coq case term, non-trivial = some flag set / non-zero argument / sequence longer than one call")
 	rng := vh.NewRand(fl.Seed)
 	thorough := fl.Tier == "thorough"
@@ -821,6 +926,11 @@ func main() {
 		doStress(stressCfg{Name: "4-disjoint-bits", Setters: four, Millis: ms, Init: uint32(rng.U64())})
 		doStress(stressCfg{Name: "setlast-vs-set", Setters: pickBits(rng, 1), GroupGoer: true, Millis: ms, Init: uint32(rng.U64())})
 		doStress(stressCfg{Name: "setlast-vs-3-setters", Setters: pickBits(rng, 3), GroupGoer: true, Millis: ms, Init: uint32(rng.U64())})
+	}
+	// 1'. the same lost-update scenario with the flags set / cleared THROUGH the connHost methods of a *Session and a *proxyClient
+	for r := 0; r < rounds; r++ {
+		doStress(stressCfg{Name: "2-disjoint-bits-via-session", Via: "session", Setters: pickBits(rng, 2), Millis: ms / 2, Init: uint32(rng.U64())})
+		doStress(stressCfg{Name: "2-disjoint-bits-via-proxyclient", Via: "proxyclient", Setters: pickBits(rng, 2), Millis: ms / 2, Init: uint32(rng.U64())})
 	}
 	// 1a. two goroutines setting / clearing the SAME flag
 	sms := 100
@@ -933,6 +1043,51 @@ func main() {
 			ops[j] = [2]uint32{op, v}
 		}
 		doSeq(w, ops, "seq")
+	}
+	// 5. the word through the connHost wrappers of *Session and *proxyClient (what the rest of c2 calls)
+	for kind := 0; kind < 3; kind++ {
+		// every flag set then cleared through the interface, and the documented close histories
+		for _, b := range bits {
+			doHost(kind, 0, [][2]uint32{{0, b}, {2, 0}, {1, b}, {2, 0}}, "host-grid")
+			doHost(kind, uint32(rng.U64())|b, [][2]uint32{{1, b}, {0, b}, {1, b}}, "host-grid")
+		}
+		if kind != 1 {
+			// SetChannel(true) raised a notice (ChannelValue|ChannelUpdated), close, the peer starts a channel, poll
+			for _, w0 := range []uint32{bits[bChannelValue] | bits[bChannelUpdated], bits[bReady] | bits[bChannelUpdated],
+				bits[bReady] | bits[bChannel] | bits[bChannelValue] | bits[bChannelUpdated], bits[bReady] | bits[bChannel] | bits[bChannelUpdated] | bits[bChannelProxy],
+				bits[bShutdownWait] | bits[bChannelValue] | bits[bChannelUpdated], 0} {
+				doHost(kind, w0, [][2]uint32{{5, 0}, {0, bits[bChannel]}, {4, 0}, {4, 0}}, "host-close")
+				doHost(kind, w0|uint32(rng.U64())&^(bits[bClosed]|bits[bClosing]|bits[bShutdownWait]), [][2]uint32{{5, 0}, {2, 0}, {0, bits[bChannel]}, {4, 0}}, "host-close")
+			}
+		}
+		nh := 700
+		if thorough {
+			nh = 15000
+		}
+		for i := 0; i < nh; i++ {
+			w := uint32(rng.U64())
+			if rng.Intn(2) == 0 {
+				w &^= bits[bClosed] | bits[bClosing] | bits[bShutdownWait]
+			}
+			n := 1 + rng.Intn(10)
+			ops := make([][2]uint32, n)
+			for j := range ops {
+				nop := 6
+				if kind == 1 {
+					nop = 5
+				}
+				op := uint32(rng.Intn(nop))
+				var v uint32
+				if op < 2 {
+					v = bits[rng.Intn(16)]
+					if rng.Intn(4) == 0 {
+						v |= bits[rng.Intn(16)]
+					}
+				}
+				ops[j] = [2]uint32{op, v}
+			}
+			doHost(kind, w, ops, "host-seq")
+		}
 	}
 	out.Finish()
 }
